@@ -313,7 +313,7 @@ Section WireProofs.
   Lemma srv_ignored_plain : forall U d x, shape d -> is_plain x = true ->
     srv_ignored U d (out_object_of d x) = Ok (out_object_of d x).
   Proof.
-    intros U d x Hs Hp. unfold srv_ignored.
+    intros U d x Hs Hp. unfold srv_ignored, srv_ignored_gen.
     assert (H1 : oo_ignored_head (out_object_of d x) = false).
     { unfold out_object_of. destruct (md_style d), (md_out d) as [[|g1 [|g2 gs]]|t];
         try (apply plain_not_ignored_head; exact Hp); reflexivity. }
@@ -446,3 +446,332 @@ Section WireProofs.
           try (destruct Hw as [Hw|Hw]; [discriminate Hw|rewrite Hw]); reflexivity.
   Qed.
 End WireProofs.
+
+(* ------------------------------------------------------------------ the property *)
+Lemma shape_of_method : forall U dcs ms key d,
+  decorate_all U dcs = Ok ms -> find_method ms key = Some d -> shape d.
+Proof.
+  intros U dcs ms key d Hd Hf. apply decorate_all_shape in Hd. rewrite Forall_forall in Hd.
+  apply Hd. eapply find_method_in. exact Hf.
+Qed.
+
+Lemma wire_supported_soap : forall U d, wire_supported U PSoap d.
+Proof. intros U d. right. reflexivity. Qed.
+
+Section Main.
+  Variable xfer : proto -> msg -> rmsg -> out rmsg.
+
+  Theorem null_eq_wire : forall U p dcs ms key d hs f args kw,
+    decorate_all U dcs = Ok ms ->
+    find_method ms key = Some d ->
+    null_supported U d -> wire_supported U p d ->
+    call_ok (param_names U d) args kw ->
+    hdr_ok p d hs ->
+    codec_carries xfer U p d (hdr_of hs) f args kw ->
+    fun_fits U d (hdr_of hs) f args kw ->
+    outcome_rel (fst (null_call U ms key (hdr_of hs) f args kw))
+                (fst (wire_call xfer U p ms key hs f args kw))
+    /\ app_trace (snd (null_call U ms key (hdr_of hs) f args kw)) = ref_trace U d (hdr_of hs) f args kw
+    /\ app_trace (snd (wire_call xfer U p ms key hs f args kw)) = ref_trace U d (hdr_of hs) f args kw.
+  Proof.
+    intros U p dcs ms key d hs f args kw Hd Hf Hn Hw Hc Hh [Hx1 Hx2] Hfit.
+    pose proof (shape_of_method _ _ _ _ _ Hd Hf) as Hs.
+    unfold null_call, null_call_gen, wire_call. rewrite Hf.
+    rewrite (null_in_object_ok U d args kw Hs Hn Hc).
+    rewrite (wire_in_object_ok xfer U p d args kw Hs Hn Hw Hx1).
+    rewrite (wire_hdr_ok p d hs Hh).
+    rewrite (process_request_ref U d f (hdr_of hs) _ _ Hs (null_io_args U d args kw Hs Hn)).
+    rewrite (process_request_ref U d f (hdr_of hs) _ _ Hs (wire_io_args U d args kw Hs Hn)).
+    unfold pr_ref, ref_trace, fun_fits in *.
+    destruct (f (hdr_of hs) (delivered U d args kw)) as [x|flt|] eqn:Ef.
+    - specialize (Hfit x eq_refl).
+      rewrite (cb_retval_ok U d x Hs Hfit).
+      destruct (wire_result_ok xfer U p d x Hs Hw Hfit (fun m => Hx2 x m eq_refl)) as [y [Hy Hr]].
+      rewrite Hy. cbn [fst snd outcome_rel]. split; [symmetry; exact Hr|]. split; reflexivity.
+    - cbn [fst snd outcome_rel]. split; [reflexivity|]. split; reflexivity.
+    - cbn [fst snd outcome_rel]. split; [reflexivity|]. split; reflexivity.
+  Qed.
+
+  Theorem unknown_method_same_fault : forall U p ms key hs h f args kw,
+    find_method ms key = None ->
+    null_call U ms key h f args kw = (Raised (resource_not_found key), [])
+    /\ wire_call xfer U p ms key hs f args kw = (Raised (resource_not_found key), []).
+  Proof. intros. unfold null_call, null_call_gen, wire_call. rewrite H. split; reflexivity. Qed.
+End Main.
+
+(* ------------------------------------------------------------------ keyword = positional *)
+Lemma bind_args_full : forall names vs kw, length vs = length names -> bind_args names vs kw = vs.
+Proof.
+  induction names as [|k ns IH]; intros [|v r] kw H; cbn in *; try reflexivity; try discriminate H.
+  f_equal. apply IH. lia.
+Qed.
+
+Lemma call_ok_full : forall names vs, length vs = length names -> call_ok names vs [].
+Proof. intros names vs H. split; [lia|]. intros; reflexivity. Qed.
+
+Lemma param_names_length_io : forall U d args kw, null_supported U d ->
+  null_io U d (bind_args (param_names U d) args kw) [] = null_io U d args kw.
+Proof.
+  intros U [nm st mi mo nh] args kw Hn. unfold null_io, param_names, null_supported in *. cbn in *.
+  destruct mi as [fs|[q|c|e]]; try contradiction.
+  - rewrite bind_args_full by (rewrite bind_args_length; reflexivity). reflexivity.
+  - destruct (flat_fields U c) as [ffs|]; [|contradiction].
+    rewrite bind_args_full by (rewrite bind_args_length; reflexivity). reflexivity.
+Qed.
+
+Theorem kw_eq_pos : forall U dcs ms key d h f args kw,
+  decorate_all U dcs = Ok ms -> find_method ms key = Some d ->
+  null_supported U d -> call_ok (param_names U d) args kw ->
+  null_call U ms key h f args kw = null_call U ms key h f (bind_args (param_names U d) args kw) [].
+Proof.
+  intros U dcs ms key d h f args kw Hd Hf Hn Hc.
+  pose proof (shape_of_method _ _ _ _ _ Hd Hf) as Hs.
+  unfold null_call, null_call_gen. rewrite Hf.
+  rewrite (null_in_object_ok U d args kw Hs Hn Hc).
+  rewrite (null_in_object_ok U d _ [] Hs Hn (call_ok_full _ _ (bind_args_length _ _ _))).
+  rewrite param_names_length_io by exact Hn. reflexivity.
+Qed.
+
+(* ------------------------------------------------------------------ Ignored *)
+Lemma index_range_nones : forall n pre,
+  index_range (OSeq (pre ++ repeat (PVal VNone) n)) (length pre) n = Ok (repeat VNone n).
+Proof.
+  induction n as [|n IH]; intro pre; [reflexivity|].
+  cbn [repeat index_range oo_index]. rewrite nth_error_app2 by lia. rewrite Nat.sub_diag. cbn.
+  replace (pre ++ PVal VNone :: repeat (PVal VNone) n) with ((pre ++ [PVal VNone]) ++ repeat (PVal VNone) n)
+    by (rewrite <- app_assoc; reflexivity).
+  replace (S (length pre)) with (length (pre ++ [PVal VNone])) by (rewrite app_length; cbn; lia).
+  rewrite IH. reflexivity.
+Qed.
+Lemma pad_vals_nones : forall n, pad_vals (repeat (PVal VNone) n) n = Ok (repeat VNone n).
+Proof. induction n as [|n IH]; [reflexivity|]. cbn. rewrite IH. reflexivity. Qed.
+
+Lemma cb_retval_ignored : forall U d pl, shape d ->
+  cb_retval U d (out_object_of d (PIgnored pl)) = Ok (PIgnored pl).
+Proof.
+  intros U [nm st mi mo nh] pl Hs. unfold cb_retval, out_object_of.
+  inversion Hs as [fs gs E1 E2 E3|t E1 E2 Ho|fs E1 E2 Ho|E1 E2 Ho|E1 E2 Ho]; cbn in E1, E2; subst; try reflexivity.
+  cbn in E3. subst mo. destruct gs as [|g1 [|g2 gs]]; try reflexivity.
+  cbn -[cmp_eval Z.of_nat]. rewrite len2_eq0, len2_eq1. reflexivity.
+Qed.
+
+Section Ignored.
+  Variable xfer : proto -> msg -> rmsg -> out rmsg.
+
+  (** the response the server writes for an Ignored return carries one null per declared value *)
+  Lemma wire_ignored_ok : forall U p d pl, shape d -> wire_supported U p d ->
+    (forall m, srv_response U p d (out_object_of d (PIgnored pl)) = Ok m -> xfer p (md_out d) m = Ok m) ->
+    (do m <- srv_response U p d (out_object_of d (PIgnored pl));
+     do m' <- xfer p (md_out d) m; client_unwrap d m') = Ok (empty_result U d).
+  Proof.
+    intros U p [nm st mi mo nh] pl Hs Hw Hx. cbn [md_out] in Hx.
+    assert (Hgen : forall m, srv_response U p (mkdesc nm st mi mo nh) (out_object_of (mkdesc nm st mi mo nh) (PIgnored pl)) = Ok m ->
+                   client_unwrap (mkdesc nm st mi mo nh) m = Ok (empty_result U (mkdesc nm st mi mo nh)) ->
+                   (do m <- srv_response U p (mkdesc nm st mi mo nh) (out_object_of (mkdesc nm st mi mo nh) (PIgnored pl));
+                    do m' <- xfer p mo m; client_unwrap (mkdesc nm st mi mo nh) m') = Ok (empty_result U (mkdesc nm st mi mo nh))).
+    { intros m Hm Hy. rewrite Hm. cbn [Prelude.bind]. rewrite (Hx m Hm). cbn [Prelude.bind]. exact Hy. }
+    unfold wire_supported in Hw. cbn [md_style md_in md_name] in Hw.
+    inversion Hs as [fs gs E1 E2 E3|t E1 E2 Ho|fs E1 E2 Ho|E1 E2 Ho|E1 E2 Ho]; cbn in E1, E2; subst.
+    - cbn in E3. subst mo. destruct gs as [|g1 [|g2 gs]].
+      + apply Hgen with (m := RWrap []); [|reflexivity]. destruct p; reflexivity.
+      + apply Hgen with (m := RWrap [VNone]); [|reflexivity]. destruct p; reflexivity.
+      + apply Hgen with (m := RWrap (repeat VNone (length (g1 :: g2 :: gs)))).
+        * unfold srv_response, srv_ignored, srv_ignored_gen, out_object_of.
+          cbn [md_style md_out]. cbn -[cmp_eval Z.of_nat repeat Z.to_nat resp_value length].
+          unfold out_len, msg_len_own. cbn [md_out msg_type_info Prelude.bind]. rewrite Nat2Z.id.
+          unfold resp_value. cbn [md_style md_out bstyle_eqb msg_type_info Prelude.bind].
+          destruct p.
+          -- pose proof (index_range_nones (length (g1 :: g2 :: gs)) []) as Hi. cbn [app length] in Hi.
+             cbn [length]. rewrite Hi. reflexivity.
+          -- cbn [oo_iter Prelude.bind]. rewrite pad_vals_nones. reflexivity.
+          -- cbn [eval_cond existsb is_out_bare_styles bstyle_eqb md_style orb Prelude.bind msg_type_info md_out].
+             pose proof (index_range_nones (length (g1 :: g2 :: gs)) []) as Hi. cbn [app length] in Hi.
+             cbn [length]. rewrite Hi. reflexivity.
+        * reflexivity.
+    - inversion Ho as [E|t' E]; cbn in E; subst mo;
+        apply Hgen with (m := RBare VNone); try reflexivity;
+        unfold srv_response, srv_ignored, srv_ignored_gen, out_object_of, resp_value;
+        destruct p; cbn -[xml_nonwrapped soap_nonwrapped];
+        try (destruct Hw as [Hw|Hw]; [discriminate Hw|rewrite Hw]); reflexivity.
+    - inversion Ho as [E|t' E]; cbn in E; subst mo;
+        apply Hgen with (m := RBare VNone); try reflexivity;
+        unfold srv_response, srv_ignored, srv_ignored_gen, out_object_of, resp_value;
+        destruct p; cbn -[xml_nonwrapped soap_nonwrapped];
+        try (destruct Hw as [Hw|Hw]; [discriminate Hw|rewrite Hw]); reflexivity.
+    - inversion Ho as [E|t' E]; cbn in E; subst mo;
+        apply Hgen with (m := RBare VNone); try reflexivity;
+        unfold srv_response, srv_ignored, srv_ignored_gen, out_object_of, resp_value;
+        destruct p; cbn -[xml_nonwrapped soap_nonwrapped];
+        try (destruct Hw as [Hw|Hw]; [discriminate Hw|rewrite Hw]); reflexivity.
+    - inversion Ho as [E|t' E]; cbn in E; subst mo;
+        apply Hgen with (m := RBare VNone); try reflexivity;
+        unfold srv_response, srv_ignored, srv_ignored_gen, out_object_of, resp_value;
+        destruct p; cbn -[xml_nonwrapped soap_nonwrapped];
+        try (destruct Hw as [Hw|Hw]; [discriminate Hw|rewrite Hw]); reflexivity.
+  Qed.
+
+  Theorem ignored_direct_and_empty_on_wire : forall U p dcs ms key d hs f args kw pl,
+    decorate_all U dcs = Ok ms ->
+    find_method ms key = Some d ->
+    null_supported U d -> wire_supported U p d ->
+    call_ok (param_names U d) args kw ->
+    hdr_ok p d hs ->
+    f (hdr_of hs) (delivered U d args kw) = URet (PIgnored pl) ->
+    (forall r, client_request U d args kw = Ok r -> xfer p (md_in d) r = Ok r) ->
+    (forall m, srv_response U p d (out_object_of d (PIgnored pl)) = Ok m -> xfer p (md_out d) m = Ok m) ->
+    fst (null_call U ms key (hdr_of hs) f args kw) = Returned (PIgnored pl)
+    /\ fst (wire_call xfer U p ms key hs f args kw) = Returned (empty_result U d).
+  Proof.
+    intros U p dcs ms key d hs f args kw pl Hd Hf Hn Hw Hc Hh Hret Hx1 Hx2.
+    pose proof (shape_of_method _ _ _ _ _ Hd Hf) as Hs.
+    unfold null_call, null_call_gen, wire_call. rewrite Hf.
+    rewrite (null_in_object_ok U d args kw Hs Hn Hc).
+    rewrite (wire_in_object_ok xfer U p d args kw Hs Hn Hw Hx1).
+    rewrite (wire_hdr_ok p d hs Hh).
+    rewrite (process_request_ref U d f (hdr_of hs) _ _ Hs (null_io_args U d args kw Hs Hn)).
+    rewrite (process_request_ref U d f (hdr_of hs) _ _ Hs (wire_io_args U d args kw Hs Hn)).
+    unfold pr_ref. rewrite Hret.
+    rewrite (cb_retval_ignored U d pl Hs).
+    rewrite (wire_ignored_ok U p d pl Hs Hw Hx2). split; reflexivity.
+  Qed.
+
+  (** NullServer(ostr=True) returns exactly the response the wire server writes *)
+  Theorem ostr_is_the_wire_response : forall U p dcs ms key d h f args kw x,
+    decorate_all U dcs = Ok ms ->
+    find_method ms key = Some d ->
+    null_supported U d ->
+    call_ok (param_names U d) args kw ->
+    f h (delivered U d args kw) = URet x ->
+    (ret_fits d x = true \/ exists pl, x = PIgnored pl) ->
+    fst (null_call_ostr U p ms key h f args kw) =
+      match srv_response U p d (out_object_of d x) with
+      | Ok m => ReturnedDoc m
+      | Crash e => Crashed e
+      | VFault => Raised validation_error
+      end.
+  Proof.
+    intros U p dcs ms key d h f args kw x Hd Hf Hn Hc Hret Hx.
+    pose proof (shape_of_method _ _ _ _ _ Hd Hf) as Hs.
+    unfold null_call_ostr. rewrite Hf.
+    rewrite (null_in_object_ok U d args kw Hs Hn Hc).
+    rewrite (process_request_ref U d f h _ _ Hs (null_io_args U d args kw Hs Hn)).
+    unfold pr_ref. rewrite Hret.
+    assert (Hcb : exists r, cb_retval U d (out_object_of d x) = Ok r).
+    { destruct Hx as [Hx|[pl ->]]; eexists; [apply cb_retval_ok|apply cb_retval_ignored]; assumption. }
+    destruct Hcb as [r Hr]. rewrite Hr. cbn [Prelude.bind]. unfold srv_response.
+    change (if cb_ostr_normalises_ignored then srv_ignored U d (out_object_of d x) else Ok (out_object_of d x))
+      with (srv_ignored U d (out_object_of d x)).
+    destruct (do o' <- srv_ignored U d (out_object_of d x); resp_value U p d o'); reflexivity.
+  Qed.
+End Ignored.
+
+(* ------------------------------------------------------------------ corollaries and the regions outside the guard *)
+Section Corollaries.
+  Variable xfer : proto -> msg -> rmsg -> out rmsg.
+
+  Theorem null_eq_wire_soap : forall U dcs ms key d hs f args kw,
+    decorate_all U dcs = Ok ms -> find_method ms key = Some d ->
+    null_supported U d ->
+    call_ok (param_names U d) args kw ->
+    hdr_ok PSoap d hs ->
+    codec_carries xfer U PSoap d (hdr_of hs) f args kw ->
+    fun_fits U d (hdr_of hs) f args kw ->
+    outcome_rel (fst (null_call U ms key (hdr_of hs) f args kw))
+                (fst (wire_call xfer U PSoap ms key hs f args kw))
+    /\ app_trace (snd (null_call U ms key (hdr_of hs) f args kw)) = ref_trace U d (hdr_of hs) f args kw
+    /\ app_trace (snd (wire_call xfer U PSoap ms key hs f args kw)) = ref_trace U d (hdr_of hs) f args kw.
+  Proof. intros. eapply null_eq_wire; eauto. apply wire_supported_soap. Qed.
+
+  Theorem null_eq_wire_xml_when_first : forall U dcs ms key d f args kw,
+    xml_nonwrapped = NWFirst ->
+    decorate_all U dcs = Ok ms -> find_method ms key = Some d ->
+    null_supported U d ->
+    call_ok (param_names U d) args kw ->
+    codec_carries xfer U PXml d None f args kw ->
+    fun_fits U d None f args kw ->
+    outcome_rel (fst (null_call U ms key None f args kw))
+                (fst (wire_call xfer U PXml ms key [] f args kw))
+    /\ app_trace (snd (null_call U ms key None f args kw)) = ref_trace U d None f args kw
+    /\ app_trace (snd (wire_call xfer U PXml ms key [] f args kw)) = ref_trace U d None f args kw.
+  Proof.
+    intros U dcs ms key d f args kw Hm Hd Hf Hn Hc Hx Hfit.
+    apply (null_eq_wire xfer U PXml dcs ms key d [] f args kw); auto.
+    - right. exact Hm.
+    - left. reflexivity.
+  Qed.
+End Corollaries.
+
+(** more positional arguments than parameters: NullServer raises IndexError before anything runs *)
+Theorem null_too_many_args : forall U ms key d h f args kw ti,
+  find_method ms key = Some d ->
+  msg_type_info U null_ti_source (md_in d) = Ok ti ->
+  (length ti < length args)%nat ->
+  null_call U ms key h f args kw = (Crashed IndexError, []).
+Proof.
+  intros U ms key d h f args kw ti Hf Hti Hl. unfold null_call, null_call_gen, null_in_object.
+  rewrite Hf, Hti. cbn [Prelude.bind]. rewrite (fill_too_many _ _ Hl). reflexivity.
+Qed.
+
+Arguments flat_fields : simpl nomatch.
+
+(** witnesses: class K(a: Integer, b: Unicode), class D(K)(c: Boolean), a bare method bd(D) -> D *)
+Definition U_inh : universe :=
+  [ mkcls [117] [75] None [mkfield [97] (TPrim PInt) 0 (Some 1) true KElem; mkfield [98] (TPrim PText) 0 (Some 1) true KElem];
+    mkcls [117] [68] (Some 0%nat) [mkfield [99] (TPrim PBool) 0 (Some 1) true KElem] ].
+Definition dcs_inh : list decl := [ mkdecl [98; 100] DBare [([107], TRef 1%nat)] (RetOne (TRef 1%nat)) 0 ].
+Definition d_bd : descriptor := mkdesc [98; 100] BBare (MType (TRef 1%nat)) (MType (TRef 1%nat)) 0.
+Definition xfer_id (p : proto) (m : msg) (r : rmsg) : out rmsg := Ok r.
+
+Lemma call_ok_kw_only : forall names kw, call_ok names [] kw.
+Proof. intros. split; cbn; [lia|]. intros k []. Qed.
+
+(** pinned null.py (in_message._type_info): the keyword argument of an inherited class lands in
+    the wrong field — the function is never entered with the arguments of the call *)
+Theorem own_type_info_refuted :
+  exists U dcs ms key d args kw,
+    decorate_all U dcs = Ok ms /\ find_method ms key = Some d /\ null_supported U d /\
+    call_ok (param_names U d) args kw /\
+    forall f, ~ In (EvUser None (delivered U d args kw)) (snd (null_call_gen TIOwn U ms key None f args kw)).
+Proof.
+  exists U_inh, dcs_inh, [d_bd], [98; 100], d_bd, [], [([99], VLeaf (LBool true))].
+  split; [reflexivity|]. split; [reflexivity|]. split; [cbn; discriminate|]. split; [apply call_ok_kw_only|].
+  intros f Hin. unfold null_call_gen in Hin. cbn in Hin.
+  destruct (f None [PVal (VObj 1%nat [VLeaf (LBool true); VNone; VNone])]) as [x|flt|]; cbn in Hin.
+  - destruct x; cbn in Hin;
+      repeat (destruct Hin as [Hin|Hin]; [try discriminate Hin; inversion Hin|]); try contradiction.
+  - repeat (destruct Hin as [Hin|Hin]; [try discriminate Hin; inversion Hin|]); contradiction.
+  - repeat (destruct Hin as [Hin|Hin]; [try discriminate Hin; inversion Hin|]); contradiction.
+Qed.
+
+(** pinned server/_base.py (out_object = ()): an Ignored return from a method with several return
+    values cannot be serialized by the protocols that index ctx.out_object *)
+Theorem ignored_empty_tuple_refuted : forall U nm fs g1 g2 gs nh pl,
+  let d := mkdesc nm BWrapped (MWrap fs) (MWrap (g1 :: g2 :: gs)) nh in
+  let pinned := [(CIgnoredHead, IgnOneNone); (CIsIgnored, IgnEmptyTuple)] in
+  (do o <- srv_ignored_gen pinned U d (out_object_of d (PIgnored pl)); resp_value U PXml d o) = Crash IndexError
+  /\ (do o <- srv_ignored_gen pinned U d (out_object_of d (PIgnored pl)); resp_value U PHier d o) = Crash IndexError.
+Proof. intros. split; reflexivity. Qed.
+
+(** HierDictDocument looks a bare request body up under the type name: the arguments never arrive *)
+Theorem hier_bare_request_refuted :
+  exists U dcs ms key d args kw,
+    decorate_all U dcs = Ok ms /\ find_method ms key = Some d /\ null_supported U d /\
+    call_ok (param_names U d) args kw /\
+    forall f, ~ In (EvUser None (delivered U d args kw)) (snd (wire_call xfer_id U PHier ms key [] f args kw))
+              /\ In (EvUser None (delivered U d args kw)) (snd (null_call U ms key None f args kw)).
+Proof.
+  exists U_inh, dcs_inh, [d_bd], [98; 100], d_bd, [], [([99], VLeaf (LBool true))].
+  split; [reflexivity|]. split; [reflexivity|]. split; [cbn; discriminate|]. split; [apply call_ok_kw_only|].
+  intros f. split.
+  - intro Hin. unfold wire_call in Hin. cbn in Hin.
+    destruct (f None [PVal (VList [])]) as [x|flt|]; cbn in Hin.
+    + destruct x; cbn in Hin;
+        repeat (destruct Hin as [Hin|Hin]; [try discriminate Hin; inversion Hin|]); try contradiction.
+    + repeat (destruct Hin as [Hin|Hin]; [try discriminate Hin; inversion Hin|]); contradiction.
+    + repeat (destruct Hin as [Hin|Hin]; [try discriminate Hin; inversion Hin|]); contradiction.
+  - unfold null_call, null_call_gen. cbn.
+    destruct (f None [PVal (VObj 1%nat [VNone; VNone; VLeaf (LBool true)])]) as [x|flt|]; cbn.
+    + destruct x; cbn; auto.
+    + auto.
+    + auto.
+Qed.
